@@ -271,7 +271,7 @@ func (s *Service) onStopStream(w http.ResponseWriter, r *http.Request, pathParam
 
 	rt = media.Get(path)
 	if rt != nil {
-		rt.Close()
+		media.Unregist(rt) // 关闭并从注册表移除：已关闭的流不能再被查找到
 	}
 
 	w.WriteHeader(http.StatusOK)
